@@ -105,8 +105,12 @@ def constraints_spec(draw):
             c[key] = False
     if draw(st.integers(0, 5)) == 5:
         c["maxTempChange"] = draw(st.floats(0.1, 10.0))
-    if draw(st.integers(0, 7)) == 7:
+    if draw(st.integers(0, 4)) == 4:
         c["minComposition"] = 10 ** draw(st.floats(-12, -6))
+        if draw(st.booleans()):
+            # coarse stepping with the step-size checks off: the matrix overshoots and the documented clamp of a negative balance
+            # engages in about one run in ten (measured), against under 1 % otherwise
+            c.update({"dtScale": 0.2, "checkVolumePre": False, "checkPSD": False, "checkNucleation": False})
     return c
 
 
